@@ -163,7 +163,12 @@ class GhostWork:
                     isinstance(x.value, ast.Call) and isinstance(x.value.func, ast.Attribute) and isinstance(x.value.func.value, ast.Name)
                     and x.value.func.value.id == "logger")))]
                 first_is_check = bool(eff) and _is_call_to(eff[0], self.check)
-                self.checked_loops.append((s.lineno, first_is_check))
+                # dry run: does an iteration do any work at all?  (a loop that only filters / copies needs no check)
+                np_, nc_ = len(self.problems), len(self.checked_loops)
+                works = self.block(s.body, 0) != 0
+                del self.problems[np_:], self.checked_loops[nc_:]
+                if works or first_is_check:
+                    self.checked_loops.append((s.lineno, first_is_check))
                 body_after = self.block(s.body, 0 if first_is_check else w)
                 if not first_is_check:
                     # without a check at the head of every iteration the work of all iterations adds up
